@@ -334,11 +334,14 @@ def views_and_copies_stream(ctx):
     per = 40 if ctx.thorough else 8
     for module, letter, spec in schemaio.record_specs():
         cls = schemaio.real_class(module, letter)
+        if cls is not None:
+            accessor_cases(v, r, module, letter, spec, cls, 6 if ctx.thorough else 2)
         rep_fields = [f for f in spec["fields"] if f["shape"] == "repeated" and text_subs(f)]
         comp_fields = [f for f in spec["fields"] if f["shape"] == "component" and text_subs(f)]
         if cls is None or not (rep_fields or comp_fields):
             continue
         names = [f["name"] for f in spec["fields"]]
+        twin_cases(v, r, module, letter, spec, cls, comp_fields + rep_fields, 6 if ctx.thorough else 2)
         for _ in range(per):
             try:
                 la = codec.decode_record(schemaio.gen_record(r, spec, fill=0.9)[0])
@@ -450,6 +453,99 @@ def views_and_copies_stream(ctx):
                            "views-and-copies/" + ("deepcopy" if how == "deepcopy" else "view"))
                     break
     return v
+
+
+def accessor_cases(v, r, module, letter, spec, cls, n):
+    """whatever a read accessor of a record hands out (keys, values, items, the rendered dict, iteration) is the caller's:
+    rearranging or emptying it changes no record and no record built later"""
+    from senaite.astm import codec
+    for _ in range(n):
+        try:
+            la = codec.decode_record(schemaio.gen_record(r, spec, fill=0.7)[0])
+            names = [f["name"] for f in spec["fields"]]
+            if "timestamp" in names:
+                i = names.index("timestamp")
+                la = la + [None] * (i + 1 - len(la))
+                la[i] = la[i] or "20240101000000"
+            a = cls(*la)
+            ref = copy.deepcopy(a.to_dict())
+        except Exception:
+            continue
+        acc = r.choice(["keys", "values", "items", "to_dict", "list", "to_astm"])
+        case = {"module": module, "letter": letter, "how": "accessor:" + acc, "ops": []}
+        try:
+            got = {"keys": a.keys, "values": a.values, "items": a.items, "to_dict": a.to_dict, "list": lambda: list(a),
+                   "to_astm": a.to_astm}[acc]()
+            if isinstance(got, dict):
+                for k_ in list(got)[::2]:
+                    del got[k_]
+                got["~new~"] = 1
+            elif isinstance(got, list):
+                got.reverse()
+                if got:
+                    got.pop()
+                got.append("~new~")
+                for x in got:
+                    if isinstance(x, list) and acc == "to_astm":      # (values / items hold the live list views)
+                        x.append("~new~")
+        except Exception:
+            continue
+        v.case(case)
+        v.count("accessor")
+        try:
+            now_a = a.to_dict()
+            fresh = cls(*la).to_dict()
+            eq = (a == cls(*la))
+        except Exception as e:  # noqa
+            v.fail(dict(case, error=repr(e)[:120]), "after the value handed out by %s() was rearranged, records of the class "
+                   "cannot be built / rendered any more" % acc, "views-and-copies/accessor")
+            continue
+        if now_a != ref or fresh != ref or not eq:
+            v.fail(dict(case, before=repr(ref)[:200], after=repr(now_a)[:200], fresh=repr(fresh)[:200]),
+                   "rearranging what %s() handed out changed the record, a record built afterwards from the same input, or "
+                   "their equality" % acc, "views-and-copies/accessor")
+
+
+def twin_cases(v, r, module, letter, spec, cls, fields_, n):
+    """a component object of another, equally declared component class (every Component.build() call makes its own
+    class: the order's and the result's `test` of one instrument) is handed to two records; each keeps its own copy"""
+    for _ in range(n):
+        f = r.choice(fields_)
+        desc = dict(cls._fields).get(f["name"])
+        own = getattr(desc, "mapping", None) or getattr(getattr(desc, "field", None), "mapping", None)
+        if own is None:
+            continue
+        try:
+            twin = own.__mro__[1].build(*[copy.copy(fd) for _n, fd in own._fields])
+            items, _m = schemaio.gen_component(r, f["sub"], force=True)
+            obj_in = twin(*items)
+            a, b = cls(), cls()
+            single = f["shape"] == "component"
+            setattr(a, f["name"], obj_in if single else [obj_in])
+            setattr(b, f["name"], obj_in if single else [obj_in])
+        except Exception:
+            continue
+        case = {"module": module, "letter": letter, "how": "twin-component-object", "field": f["name"], "values": items, "ops": []}
+        v.case(case)
+        v.count("twin-component-object")
+        for _k in range(2):
+            who = r.choice(["a", "b", "given"])
+            tgt_comp = obj_in if who == "given" else (getattr({"a": a, "b": b}[who], f["name"]) if single
+                                                        else getattr({"a": a, "b": b}[who], f["name"])[0])
+            others = [x for n_, x in (("a", a), ("b", b)) if n_ != who]
+            try:
+                before = [copy.deepcopy(o.to_dict()) for o in others]
+                setattr(tgt_comp, r.choice(text_subs(f))["name"], schemaio.rand_text(r) or "x")
+                after = [o.to_dict() for o in others]
+            except Exception:
+                continue
+            case["ops"].append("sub-value set through " + who)
+            if after != before:
+                v.fail(dict(case, before=repr(before)[:200], after=repr(after)[:200]),
+                       "a sub-value set through %s changed another record that was given the same component object of an "
+                       "equally declared class" % ("the object handed in" if who == "given" else "record " + who),
+                       "views-and-copies/twin")
+                break
 
 
 def _encodable(lst):
